@@ -749,6 +749,7 @@ def _edit_method_table(src: str) -> str:
 
 
 KNOCKOUTS = [
+    Knockout("stabilizer-z-on-raw-register-number", STAB, sub_once("            state.apply_sigmaz(q_index(op.register, op.reg_type))\n", "            state.apply_sigmaz(op.register)\n"), "sibling.qindex", "raw"),
     Knockout("method-table-phase-dagger-entry", STAB, _edit_method_table, "sibling.gate-table", "PhaseDagger"),
     Knockout("dm-forced-one-test-inverted", "graphiq/backends/density_matrix/state.py", sub_once("                if not np.isclose(probs[1], 0.0):", "                if np.isclose(probs[1], 0.0):"), "sibling.determinism-map", "possible"),
     Knockout("dm-forced-zero-tests-other-probability", "graphiq/backends/density_matrix/state.py", sub_once("                if not np.isclose(probs[0], 0.0):", "                if not np.isclose(probs[1], 0.0):"), "sibling.determinism-map", "tests probability"),
